@@ -3,6 +3,7 @@ C03 — minimize ends with a 1-minimal file.
 -/
 import LithiumProofs.MinimizeMin
 import LithiumModel.Load
+import LithiumModel.World
 
 namespace Strat
 open Testcase
@@ -143,3 +144,16 @@ example :
   decide
 
 end Strat
+
+namespace World
+
+/-- the driver never answers for the test: a candidate whose bytes were not proposed before in this run IS handed to the
+test (one more test in the log, with the candidate's bytes on disk), whatever the candidate looks like — a marker word in
+it, an empty file, anything.  (1-minimality is a statement about what the TEST rejects; a driver that refuses candidates
+itself would make it hold for the wrong reason.) -/
+theorem C03_new_candidate_is_tested (w : W) (c : Testcase) (out : Outcome) (hnew : c.content ∉ w.tried) :
+    (stepEv w (.propose c out)).tests = w.tests ++
+      [{ idx := w.tmpCounter, disk := c.content, tmp := w.tmp, out := out }] := by
+  cases out <;> simp [stepEv, interesting, hnew]
+
+end World
